@@ -15,3 +15,20 @@ package store
 //@   trusted
 //@ func (*GetFileRequest).GetKey
 //@   trusted
+
+// The gRPC client stubs (generated): TRUSTED.  serverVerdict(s) is the final status the server
+// gives to upload stream s; CloseAndRecv is how the client learns it.
+//@ pure func serverVerdict(s any) error
+// closed: upload streams the client has closed cleanly (CloseAndRecv called); the server stores
+// an upload only if its stream was closed cleanly and its verdict is nil.
+//@ ghost field (world).closed set[any]
+//@ iface StoreV1Client.SetFile
+//@   trusted
+//@   ensures stream: (result1 == nil ==> result0 != nil && !world.closed[result0]) && (result1 != nil ==> result0 == nil)
+//@ iface StoreV1_SetFileClient.Send
+//@   trusted
+//@ iface StoreV1_SetFileClient.CloseAndRecv
+//@   trusted
+//@   modifies world.closed
+//@   ensures verdict: result1 == serverVerdict(this)
+//@   ensures closed:  world.closed[this] && forall s any :: s != this ==> world.closed[s] == old(world.closed[s])
